@@ -363,3 +363,68 @@ func badVertexEqualWhole(p, v []float64) bool { return slices.Equal(p, v) }
 func goodFormatFloat(f float64) string { return strconv.FormatFloat(f, 'f', -1, 64) }
 
 func badFormatIntFastPath(f float64) string { return strconv.FormatInt(int64(f), 10) }
+
+// ---- cached strides
+
+type Layout int
+
+func (l Layout) Stride() int {
+	switch l {
+	case 1:
+		return 2
+	case 2, 3:
+		return 3
+	}
+	return int(l)
+}
+
+type frame struct {
+	layout Layout
+	stride int
+}
+
+func goodStrideCache(f *frame, l Layout) {
+	f.layout = l
+	f.stride = l.Stride()
+}
+
+func goodStrideCacheRecomputed(f *frame, l, outer Layout) {
+	if l == 0 {
+		f.layout = outer
+	} else {
+		f.layout = l
+	}
+	f.stride = f.layout.Stride()
+}
+
+func badStrideCacheStale(f *frame, l, outer Layout) {
+	f.layout = l
+	f.stride = l.Stride()
+	if l == 0 {
+		f.layout = outer
+	}
+}
+
+// ---- dead appends
+
+type node struct{ kids []*node }
+
+func goodWorkList(root *node) int {
+	n := 0
+	work := []*node{root}
+	for i := 0; i < len(work); i++ {
+		n++
+		work = append(work, work[i].kids...)
+	}
+	return n
+}
+
+func badWorkListRange(root *node) int {
+	n := 0
+	work := []*node{root}
+	for _, x := range work {
+		n++
+		work = append(work, x.kids...)
+	}
+	return n
+}
